@@ -9,6 +9,7 @@ use minidump::Minidump;
 use minidump_common::format as md;
 use minidump_processor::{ProcessState, ProcessorOptions};
 use minidump_synth as synth;
+use minidump_synth::SectionExtra;
 use scroll::{Pread, Pwrite, LE};
 use serde_json::{json, Value};
 use std::collections::{BTreeMap, HashMap};
@@ -373,13 +374,17 @@ pub struct Model {
     pub effective_address: Option<u64>,
     /// with `deep`: (first return address, stride) instead of addresses in the application module
     pub deep_ra: Option<(u64, u64)>,
+    /// a MozMacosCrashInfoStream with two records of each listed format version (1, 4, 5)
+    pub mac_crash_info: Vec<u64>,
+    /// with `deep` on a CPU walked by scanning: the word below each return address (unused by the scan) holds this
+    pub deep_stale: Option<u64>,
 }
 pub const HEADER_TIME: u64 = 1262805309; // fixed by minidump-synth
 pub const STACK_BASE: u64 = 0x7000_0000;
 
 impl Model {
     pub fn new(cpu: CpuK, platform_id: u32) -> Model {
-        Model { cpu, platform_id, threads: vec![], thread_names: vec![], exc: None, bp: None, modules: vec![], unloaded: vec![], maps: MapsM::None, misc: None, status: None, lsb: None, code: None, syms: vec![], gpr_fill: None, deep: None, rbx: None, null_base: false, effective_address: None, deep_ra: None }
+        Model { cpu, platform_id, threads: vec![], thread_names: vec![], exc: None, bp: None, modules: vec![], unloaded: vec![], maps: MapsM::None, misc: None, status: None, lsb: None, code: None, syms: vec![], gpr_fill: None, deep: None, rbx: None, null_base: false, effective_address: None, deep_ra: None, mac_crash_info: vec![], deep_stale: None }
     }
     pub fn os(&self) -> OsK {
         os_of(self.platform_id)
@@ -468,7 +473,10 @@ pub fn build(m: &Model) -> Vec<u8> {
                 let w: u64 = if m.cpu.bits() == Some(32) { 4 } else { 8 };
                 let mut sec = Section::with_endian(e);
                 for k in 0..n as u64 {
-                    let next = if k + 1 < n as u64 { base + 2 * w * (k + 1) } else { 0 };
+                    let next = match (m.deep_stale, m.cpu) {
+                        (Some(st), CpuK::Arm) => st,
+                        _ => if k + 1 < n as u64 { base + 2 * w * (k + 1) } else { 0 },
+                    };
                     let ra = match m.deep_ra {
                         Some((first, stride)) => first + stride * k,
                         None => APP_BASE + 0x100 + (k % 0x800) * 8,
@@ -509,6 +517,39 @@ pub fn build(m: &Model) -> Vec<u8> {
     for md_ in &m.unloaded {
         let name = synth::DumpString::new(&md_.name, e);
         d = d.add_unloaded_module(synth::UnloadedModule::new(e, md_.base, md_.size, &name, 0x1234, 0)).add(name);
+    }
+    if !m.mac_crash_info.is_empty() {
+        let ty = md::MINIDUMP_STREAM_TYPE::MozMacosCrashInfoStream as u32;
+        let mut recs = vec![];
+        for (i, &v) in m.mac_crash_info.iter().enumerate() {
+            let mut s = Section::with_endian(e).D64(ty as u64).D64(v);
+            if v >= 4 {
+                s = s.D64(7 + i as u64).D64(1);
+            }
+            if v >= 5 {
+                s = s.D64(3);
+            }
+            if v >= 4 {
+                s = s.append_bytes(b"/m\0").append_bytes(b"msg\0").append_bytes(b"sig\0").append_bytes(b"bt\0").append_bytes(b"\0");
+            }
+            recs.push(s);
+        }
+        let fixed: u32 = match m.mac_crash_info.iter().max().copied().unwrap_or(1) {
+            0..=3 => 16,
+            4 => 32,
+            _ => 40,
+        };
+        let mut h = Section::with_endian(e).D32(ty).D32(recs.len() as u32).D32(fixed);
+        for i in 0..20 {
+            h = match recs.get(i) {
+                Some(r) => h.cite_location(r),
+                None => h.D32(0).D32(0),
+            };
+        }
+        d = d.add_stream(synth::SimpleStream { stream_type: ty, section: h });
+        for r in recs {
+            d = d.add(r);
+        }
     }
     if let Some((addr, bytes)) = &m.code {
         d = d.add_memory(synth::Memory::with_section(bytes_section(bytes), *addr));
@@ -1083,6 +1124,23 @@ pub fn gen_unloaded_frames(_tier: Tier) -> Gen {
         m
     };
     Gen { name: "unloaded-frames", len, model: Arc::new(model) }
+}
+
+/// macOS dumps with a crash-info stream holding records of format versions 1 / 4 / 5 in several mixes.
+pub fn gen_mac_crash_info(_tier: Tier) -> Gen {
+    const MIXES: [&[u64]; 7] = [&[1], &[4], &[5], &[1, 1], &[1, 4], &[4, 1, 5], &[5, 5, 1, 4]];
+    let radices = vec![MIXES.len() as u64, 2];
+    let len = crate::core::product(&radices);
+    let model = move |idx: u64| {
+        let d = crate::core::unrank(idx, &radices);
+        let mut m = Model::new([CpuK::Amd64, CpuK::Arm64][d[1] as usize], md::PlatformId::MacOs as u32);
+        add_threads(&mut m, &[1], 0);
+        m.threads[0].ip = APP_BASE + 0x40;
+        m.modules.push(app_module());
+        m.mac_crash_info = MIXES[d[0] as usize].to_vec();
+        m
+    };
+    Gen { name: "mac-crash-info", len, model: Arc::new(model) }
 }
 
 pub const TID_PATTERNS: [&[u32]; 7] = [&[], &[1], &[1, 2], &[2, 2], &[1, 2, 7], &[5, 1, 5], &[1, 2, 2, 7]];
@@ -2394,6 +2452,16 @@ pub fn check_json(st: &ProcessState, bytes: &[u8], out: &mut Vec<(String, String
     };
     // ---- threads
     let threads = j.get("threads").arr();
+    // mac_crash_info: the count is the length of the array, which mirrors the stream's records
+    {
+        let mci = j.get("mac_crash_info");
+        if let J::Arr(recs) = mci.get("records") {
+            let in_state = st.mac_crash_info.as_ref().map(|v| v.len());
+            if mci.get("num_records").uint() != Some(recs.len() as u64) || in_state.is_some_and(|n| n != recs.len()) {
+                fail("mac_crash_info.num_records:differs-from-array-length", format!("mac_crash_info.num_records {:?}, records[] has {}, the state has {:?}", mci.get("num_records"), recs.len(), in_state));
+            }
+        }
+    }
     if j.get("thread_count").uint() != Some(threads.len() as u64) || threads.len() != st.threads.len() {
         fail("thread_count:differs-from-array-length", format!("thread_count {:?}, threads[] has {}, state has {}", j.get("thread_count"), threads.len(), st.threads.len()));
     }
